@@ -123,6 +123,10 @@ class Marker(Exception):
     pass
 
 
+class WrongSource(Exception):
+    pass
+
+
 def py_limit(lim):
     if lim is None:
         return None
@@ -189,6 +193,17 @@ def run_mech_impl(mech, calls, fault=None, use_foreach=False):
             if fault is not None and n == fault:
                 raise Marker("fault")
             results = list(args) + [kw[names[j]] for j in range(st["npos"], len(st["srcs"]))]
+            # "each callback parameter receives the result of the source passed in that position or
+            # keyword together with that source": compare the source carried by the result with the
+            # source description (items incl. zero counts, dice in order)
+            for r, sdesc in zip(results, st["srcs"]):
+                if isinstance(r, HResult):
+                    if "h" not in sdesc or hist_items(r.h) != [[list(o), c] for o, c in sdesc["h"]]:
+                        raise WrongSource()
+                else:
+                    dice = sdesc.get("p") or sdesc.get("pw")
+                    if dice is None or [hist_items(d) for d in r.p] != [hist_items(d) for d in pools.py_pool(dice)]:
+                        raise WrongSource()
             key = tuple(result_key(r) for r in results)
             term = table.get(key)
             if term is None:
@@ -216,6 +231,8 @@ def run_mech_impl(mech, calls, fault=None, use_foreach=False):
             out.append({"ok": hist_items(r)})
         except Marker as e:
             out.append({"exc": "UserError", "which": str(e)})
+        except WrongSource:
+            out.append({"exc": "WrongSource"})
         except (ValueError, TypeError, IndexError, ZeroDivisionError, RecursionError) as e:
             out.append({"exc": type(e).__name__})
     return out, counter["n"]
@@ -380,6 +397,22 @@ def agree_answers(impl_answers, oracle_answers):
 
 # ---- generators --------------------------------------------------------------------------------
 
+def twin_of(rng, s):
+    """an ==-equal but differently represented histogram source (scaled counts / zero-count padding)"""
+    h = [list(x) for x in s["h"]]
+    if rng.random() < 0.5:
+        k = rng.choice([2, 3])
+        h = [[o, c * k] for o, c in h]
+    else:
+        have = {tuple(o) for o, _ in h}
+        for v in (9, -4, 0):
+            if (v, 1) not in have:
+                h.append([[v, 1], 0])
+                break
+        h.sort(key=lambda oc: Fraction(*oc[0]))
+    return {"h": h}
+
+
 def gen_source(rng, kinds=("h", "h", "p", "pw")):
     k = rng.choice(kinds)
     if k == "h":
@@ -416,6 +449,11 @@ def gen_limit(rng, reach=None):
     if r < 0.8:
         if reach and rng.random() < 0.6:
             q = rng.choice(reach)
+            if rng.random() < 0.35:
+                # the float nearest a reachable branch probability, by its exact binary value
+                f = Fraction(float(q))
+                if 0 < f < 1:
+                    return ["float", f.numerator, f.denominator]
             return ["frac", q.numerator, q.denominator]
         d = rng.choice([2, 3, 4, 6, 8, 9, 12, 16, 36])
         return ["frac", rng.randint(1, d - 1), d]
